@@ -171,7 +171,8 @@ def run(ck):
   # ---- V ------------------------------------------------------------------------------
   verdicts = validate(ck, pairs)
   tally = {"size1": 0, "allpad": 0, "padded": 0, "retried": 0, "exhausted": 0, "accepted": 0,
-           "rejected_by_gate": 0, "floor_active": 0, "lobpcg": 0, "f32": 0}
+           "rejected_by_gate": 0, "floor_active": 0, "lobpcg": 0, "f32": 0, "pi_premise_failed": 0,
+           "in_domain_cond_le_1e8": 0, "in_domain_not_accepted": 0, "in_domain_ridge_escalated": 0}
   for (j, r), v in zip(pairs, verdicts):
     c, d, o = j["case"], j["derived"], r["obs"]
     ck.count(1, key=c, nontrivial=not d["allpad"])
@@ -185,6 +186,19 @@ def run(ck):
     tally["floor_active"] += bool(d["lamBelowFloor"] and c["rel"])
     tally["lobpcg"] += c["method"] == "lobpcg"
     tally["f32"] += c["dt"] == "f32"
+    if c["dt"] == "f64" and c["method"] != "lobpcg" and not d["allpad"] and o["finite"]:
+      base, _ = selected(j, r)
+      cond0 = slack_of(c, d, o, base, 0, U) / (100 * c["n"] * c["p"] * U)     # with the configured ridge
+      if cond0 <= 1.0001e8:
+        tally["in_domain_cond_le_1e8"] += 1
+        tally["in_domain_not_accepted"] += not o["accepted"]
+        if o["retries"] > 1:
+          tally["in_domain_ridge_escalated"] += 1
+          ck.cov.setdefault("in_domain_escalated_examples", [])
+          if len(ck.cov["in_domain_escalated_examples"]) < 8:
+            ck.cov["in_domain_escalated_examples"].append(
+                {"case": label(c), "retries": o["retries"], "error": o["err"], "iters": o["iters"]})
+    tally["pi_premise_failed"] += not next(e for e in r["events"] if e["a"] == "Gate")["pi"]
     if v["accepted"]:
       ck.traces_ok(1)
     else:
